@@ -104,6 +104,11 @@ CHECKS = {
         text="Prng.tla: rejection-sampling randint uniform on exactly [a,b] for every raw-source size D<=16, shuffle a bijection from index choices to permutations (n<=5) - checked by TLC; every (D,a,b,raws) case replayed into the real randint with a scripted raw source; real randint/choice/shuffle/random calls with the real XorShift recorded with their raw draws and recomputed by TLC. Generator: runs of the real generate_problem over 11 builder patterns (Choice, nested lists/tuples, ArrayBuilder2D with symmetry / disallow_adjacent / use_move, SegmentationBuilder2D) with policy callbacks are validated event by event: every candidate a neighbour of the current problem per the builder's rules, the result the argument of a sat + unique solver call, None only otherwise, nothing mutated. Reproducibility: same seed under a different Python random state and different z3 seeds.",
         note="the XorShift bit stream is not pinned; exp() acceptance not modelled (accept/reject is an unlogged internal step TLC infers); callbacks are deterministic functions of the problem",
         ref="DESIGN.md 5 C19"),
+    "C11": dict(
+        technique="puzzle rules written in TLA+ over GraphDefs (PuzzleRules.tla); TLC enumerates problems on small boards and computes solvability and the facts common to all rule-obeying grids (MC_Puzzle); replay into solve_<puzzle> with z3",
+        text="For each covered puzzle TLC evaluates the published rules on every candidate answer of small, non-square-first boards (every problem over the clue alphabet in the thorough tier, a seeded sample in the quick tier) and exports whether a solution exists and, per answer key, the value all solutions agree on; solve_<puzzle> must return exactly that is_sat and exactly those decided cells. Covered so far: slitherlink, masyu, yajilin, simpleloop, nurikabe, norinori, akari, star_battle, yinyang, creek, heyawake, lits, nurimisaki, putteria, aquarium, gokigen (the evidence file lists what a run covered).",
+        note="rules as published, in the module's own problem format; boards up to 3x3/3x4; z3 with the auxiliary-variable encodings is the solving path; puzzles of the anchor list that are not yet specified are named in DESIGN.md",
+        ref="DESIGN.md 5 C11, 12"),
 }
 
 NOT_APPLICABLE = {}
